@@ -61,6 +61,11 @@ func (v *FnVC) calleeName(c *ssa.CallCommon) (name string, fn *ssa.Function) {
 		if _, isF := x.Type().Underlying().(*types.Signature); isF {
 			return v.funVarContractName(x.Name()), nil
 		}
+	case *ssa.Phi:
+		// a local variable of function type assigned on several paths: the phi carries the variable's name
+		if _, isF := x.Type().Underlying().(*types.Signature); isF && x.Comment != "" {
+			return v.funVarContractName(x.Comment), nil
+		}
 	}
 	// call through a package-level variable of function type: contract "pkg.name$var"
 	if ld, ok := c.Value.(*ssa.UnOp); ok && ld.Op == token.MUL {
